@@ -2324,12 +2324,6 @@ where
                 message: e.to_string(),
             })?;
 
-    verif_failpoint!(
-        "flip/k1/after_insert_vertex",
-        FlipError::TdsMutation {
-            message: "verif: injected failure after inserting the vertex".to_string(),
-        }
-    );
     let context = build_k1_forward_context_from_cell(tds, cell_key, vertex_key)?;
     let result = apply_bistellar_flip::<K, U, V, D, 1>(tds, kernel, &context);
 
@@ -2636,12 +2630,6 @@ where
 
     match attempt1_result {
         Ok(stats) => {
-            verif_failpoint!(
-                "repair/after_attempt1",
-                DelaunayRepairError::PostconditionFailed {
-                    message: "verif: injected failure after the first repair attempt".to_string(),
-                }
-            );
             if verify_repair_postcondition(tds, kernel, seed_cells).is_ok() {
                 return Ok(stats);
             }
